@@ -141,6 +141,37 @@ class PathCond:
                 f = self._exists(f, a)
         return f
 
+    def expr_bits(self, expr: ast.AST) -> T.Optional[int]:
+        """Truth table (over this universe) of a boolean expression whose leaves are tracked atoms or
+        constants; None if some leaf is not tracked."""
+        if isinstance(expr, ast.BoolOp):
+            parts = [self.expr_bits(v) for v in expr.values]
+            if any(p is None for p in parts):
+                return None
+            out = parts[0]
+            for p in parts[1:]:
+                out = (out & p) if isinstance(expr.op, ast.And) else (out | p)
+            return out
+        if isinstance(expr, ast.UnaryOp) and isinstance(expr.op, ast.Not):
+            b = self.expr_bits(expr.operand)
+            return None if b is None else (~b & self.full)
+        if isinstance(expr, ast.Constant) and isinstance(expr.value, (bool, type(None))):
+            return self.full if expr.value else 0
+        if isinstance(expr, ast.IfExp):
+            t, a, b = self.expr_bits(expr.test), self.expr_bits(expr.body), self.expr_bits(expr.orelse)
+            if None in (t, a, b):
+                return None
+            return (t & a) | (~t & self.full & b)
+        txt, pol = norm_atom(expr)
+        if txt in self.masks:
+            m = self.masks[txt]
+            return m if pol else (~m & self.full)
+        return None
+
+    def expr_bf(self, expr: ast.AST) -> T.Optional[BF]:
+        b = self.expr_bits(expr)
+        return None if b is None else BF(self.atoms, b)
+
     def _post(self, nid: int, f: int) -> int:
         node = self.cfg.nodes[nid]
         a = node.ast
@@ -152,7 +183,19 @@ class PathCond:
             names = assigned_names(ast.Assign(targets=[node.extra["target"]], value=ast.Constant(0)))
             return self._kill_names(f, names)
         names = assigned_names(a)
+        # boolean assignment  v = <expression over tracked atoms>  keeps the relation v == expression
+        rel = None
+        if isinstance(a, (ast.Assign, ast.AnnAssign)) and getattr(a, "value", None) is not None:
+            tg = a.targets[0] if isinstance(a, ast.Assign) and len(a.targets) == 1 else (a.target if isinstance(a, ast.AnnAssign) else None)
+            if isinstance(tg, ast.Name) and tg.id in self.masks and not isinstance(a.value, ast.Constant) \
+                    and tg.id not in {x.id for x in ast.walk(a.value) if isinstance(x, ast.Name)}:
+                bits = self.expr_bits(a.value)
+                if bits is not None:
+                    rel = (tg.id, bits)
         f = self._kill_names(f, names)
+        if rel is not None:
+            m = self.masks[rel[0]]
+            f = f & (~(m ^ rel[1]) & self.full)
         # constant assignment to a bare name: atoms `v` and `v is None` become known
         val = None
         tname = None
@@ -212,6 +255,63 @@ class PathCond:
         if label == ("exc",):
             return BF(self.atoms, f_in)
         return BF(self.atoms, self._edge(src, label, self._post(src, f_in)))
+
+
+def expr_atoms(expr: ast.AST) -> T.List[str]:
+    """Atom texts (normalised) of the leaves of a boolean expression."""
+    if isinstance(expr, ast.BoolOp):
+        out: T.List[str] = []
+        for v in expr.values:
+            out += expr_atoms(v)
+        return out
+    if isinstance(expr, ast.UnaryOp) and isinstance(expr.op, ast.Not):
+        return expr_atoms(expr.operand)
+    if isinstance(expr, ast.IfExp):
+        return expr_atoms(expr.test) + expr_atoms(expr.body) + expr_atoms(expr.orelse)
+    if isinstance(expr, ast.Constant):
+        return []
+    return [norm_atom(expr)[0]]
+
+
+def ifexp_atoms(root: ast.AST) -> T.List[str]:
+    """Atoms of the tests of all conditional expressions below root."""
+    out: T.List[str] = []
+    for n in ast.walk(root):
+        if isinstance(n, ast.IfExp):
+            for a in expr_atoms(n.test):
+                if a not in out:
+                    out.append(a)
+    return out
+
+
+def assign_facts(cfg: CFG, pc: "PathCond", targets: T.Iterable[str]) -> T.List[T.Tuple[str, ast.AST, BF, ast.AST]]:
+    """(target, value expression, condition, statement) for every reachable assignment to one of the
+    targets; conditional expressions are split into one fact per branch."""
+    tg = set(targets)
+    out: T.List[T.Tuple[str, ast.AST, BF, ast.AST]] = []
+    live = cfg.reachable()
+
+    def split(name: str, val: ast.AST, cond: BF, st: ast.AST) -> None:
+        if isinstance(val, ast.IfExp):
+            t = pc.expr_bf(val.test)
+            if t is None:
+                raise AnalysisError(f"{cfg.fn.fq}: condition `{unparse(val.test)}` is not over tracked atoms")
+            split(name, val.body, cond & t, st)
+            split(name, val.orelse, cond & ~t, st)
+        else:
+            out.append((name, val, cond, st))
+
+    for n in cfg.nodes:
+        if n.kind != "stmt" or n.id not in live:
+            continue
+        name = val = None
+        if isinstance(n.ast, ast.Assign) and len(n.ast.targets) == 1 and isinstance(n.ast.targets[0], ast.Name):
+            name, val = n.ast.targets[0].id, n.ast.value
+        elif isinstance(n.ast, ast.AnnAssign) and isinstance(n.ast.target, ast.Name) and n.ast.value is not None:
+            name, val = n.ast.target.id, n.ast.value
+        if name in tg and val is not None:
+            split(name, val, pc.reach(n.id), n.ast)
+    return out
 
 
 class Interproc:
